@@ -116,7 +116,7 @@ func init() {
 					files := []File{{"c.yaml", cfg.YAML()}}
 					br := w.Build(files)
 					c.Distinct("all", c.ID)
-					c.Count("evaluations_override")
+					c.Count("evaluations_extra")
 					c.Distinct("nontrivial", c.ID)
 					if br.Panic != "" {
 						c.Violation("panic", "tool panicked:\n"+br.Panic, FilesMap(files), nil)
@@ -216,7 +216,8 @@ func c15oracle(c *C, outs []*BOutcome, err error) {
 			c15mask(s.Ops, exp)
 			bad, msg, compared, unspec := CompareSession(exp, res)
 			c.Count("transitions")
-			c.Count("evaluations_override")
+			c.Count("evaluations_extra")
+			c.Distinct("nontrivial", fmt.Sprintf("%s#%v", bc.ID, s.Ops))
 			c.Add("ops_compared", int64(compared))
 			for _, r := range res {
 				if r.V != nil && r.V["t"] == "state" {
